@@ -39,6 +39,7 @@ const (
 	HTTPDropReq              // request never arrives; client waits for its own timeout
 	HTTPDropResp             // handler runs, response is lost
 	HTTPRefuse               // connection refused
+	HTTPFail                 // the server answers 500 without running the handler (e.g. its disk is full)
 )
 
 // HTTPLogEntry records one request for oracles.
@@ -157,6 +158,16 @@ func (Transport) RoundTrip(req *http.Request) (*http.Response, error) {
 		})
 	}
 	switch verdict {
+	case HTTPFail:
+		w.After(lat1+w.latency(key+":resp", 64), key+":fail", func() {
+			rec := httptest.NewRecorder()
+			rec.Header().Set("Content-Type", "application/json")
+			rec.WriteHeader(500)
+			rec.Body.WriteString(`{"type":"error","status":500,"code":"Server Error","message":"injected: no space left on device"}`)
+			r := rec.Result()
+			r.Request = req
+			res <- httpResult{r, nil}
+		})
 	case HTTPRefuse:
 		w.After(lat1, key+":refused", refuse)
 	case HTTPDropReq:
